@@ -99,14 +99,14 @@ func tokenizeStream(src io.Reader, normalize bool, dict *dictionary, updateDict 
 	var doc indexedDocument
 
 	isEOF := func(in error) bool {
-		return in == io.EOF || in == io.ErrUnexpectedEOF
+		return in == io.EOF
 	}
 
 	// Read out the stream in chunks
 	for {
 		// Fill up the buffer with bytes to extract runes from
 		// idx is offset to hold any bytes left over from previous reads
-		n, err := io.ReadFull(src, rbuf[idx:])
+		n, err := readFull(src, rbuf[idx:])
 		if isEOF(err) {
 			// There are no more bytes to read, so we must now consume all bytes in the
 			// buffer.
@@ -257,6 +257,28 @@ func tokenizeStream(src io.Reader, normalize bool, dict *dictionary, updateDict 
 	doc.runes = diffWordsToRunes(&doc, 0, doc.size())
 	doc.Norm = doc.normalized()
 	return &doc, nil
+}
+
+// readFull fills buf like io.ReadFull, but reports the end of the input as
+// io.EOF also when some bytes were read before it. io.ReadFull turns that case
+// into io.ErrUnexpectedEOF, which made it indistinguishable from a reader that
+// fails with io.ErrUnexpectedEOF itself (a truncated compressed stream, for
+// example): such a failure was taken for the end of the input and MatchFrom
+// returned partial results without an error.
+func readFull(src io.Reader, buf []byte) (int, error) {
+	n := 0
+	for n < len(buf) {
+		nn, err := src.Read(buf[n:])
+		n += nn
+		if err != nil {
+			if n == len(buf) {
+				// The buffer is full; like io.ReadFull, leave the error to the next read.
+				return n, nil
+			}
+			return n, err
+		}
+	}
+	return n, nil
 }
 
 func appendToDoc(doc *indexedDocument, dict *dictionary, line int, in []tokenID, ld *dictionary, normalize bool, updateDict bool, linebuf []tokenID) {
